@@ -113,12 +113,20 @@ class Ctx:
     def prove(self, extra_targets=()):
         """lake build Props.Cxx, audit axioms of every theorem in Props/Cxx.lean."""
         prop = self.prop
-        props_file = os.path.join(LEAN, 'Props', prop + '.lean')
-        src = strip_lean_comments(open(props_file).read())
-        thms = re.findall(r'^\s*theorem\s+([A-Za-z0-9_\.\']+)', src, re.M)
-        # theorems are declared inside `namespace SpyneModel.Props.Cxx`
-        ns = re.search(r'^namespace\s+(\S+)', src, re.M)
-        full = [(ns.group(1) + '.' + t) if ns else t for t in thms]
+        # Props/Cxx.lean plus optional continuation files Props/Cxx_<part>.lean
+        import glob
+        props_files = sorted(glob.glob(os.path.join(LEAN, 'Props', prop + '.lean')) +
+                             glob.glob(os.path.join(LEAN, 'Props', prop + '_*.lean')))
+        props_file = props_files[0]
+        mods = ['Props.' + os.path.basename(f)[:-5] for f in props_files]
+        full, thms = [], []
+        for pf in props_files:
+            src = strip_lean_comments(open(pf).read())
+            th = re.findall(r'^\s*theorem\s+([A-Za-z0-9_\.\']+)', src, re.M)
+            # theorems are declared inside `namespace SpyneModel.Props.Cxx`
+            ns = re.search(r'^namespace\s+(\S+)', src, re.M)
+            full += [(ns.group(1) + '.' + t) if ns else t for t in th]
+            thms += th
         self.proof['theorems'] = full
         self.proof['obligations'] = len(full)
         # forbidden tokens anywhere in the model/proof sources
@@ -129,12 +137,12 @@ class Ctx:
                 self.proof_broken.append('forbidden-token:%s:%s' % (os.path.relpath(f, LEAN), m.group(0).strip()))
         if self.thorough:
             # clean re-elaboration of this property's modules
-            for sub in ('Props', 'Audit'):
+            for m in mods:
                 for ext in ('olean', 'ilean', 'trace', 'hash', 'olean.hash', 'olean.trace'):
-                    p = os.path.join(LEAN, '.lake/build/lib/lean', sub, '%s.%s' % (prop, ext))
+                    p = os.path.join(LEAN, '.lake/build/lib/lean', m.replace('.', '/') + '.' + ext)
                     if os.path.exists(p):
                         os.unlink(p)
-        targets = ['Props.' + prop, 'Driver.' + prop] + list(extra_targets)
+        targets = mods + ['Driver.' + prop] + list(extra_targets)
         t = time.time()
         rc, out = sh(['lake', 'build'] + targets, cwd=LEAN, timeout=3000)
         self.log('lake build %s: rc=%d (%.1fs)' % (' '.join(targets), rc, time.time() - t))
@@ -142,7 +150,11 @@ class Ctx:
         if rc != 0:
             if 'Props/%s.lean' % prop not in out and 'Generated' not in out and 'error:' not in out:
                 raise Infra('lake build failed without a Lean error:\n' + out[-3000:])
-            failed = self._failed_theorems(out, props_file, thms)
+            failed = []
+            for pf in props_files:
+                failed += [x for x in self._failed_theorems(out, pf) if x not in failed]
+            if len(failed) > 1 and ('build:Props.' + prop) in failed:
+                failed.remove('build:Props.' + prop)
             self.proof['failed'] = failed
             self.proof['build_log_tail'] = out[-4000:]
             self.proof_broken += [f for f in failed]
@@ -151,7 +163,7 @@ class Ctx:
             return False
         # axiom audit
         audit = os.path.join(LEAN, 'Audit', prop + '.lean')
-        text = '-- GENERATED: axiom audit for Props/%s.lean\nimport Props.%s\n' % (prop, prop) + \
+        text = '-- GENERATED: axiom audit for Props/%s*.lean\n' % prop + ''.join('import %s\n' % m for m in mods) + \
             ''.join('#print axioms %s\n' % t for t in full)
         if not os.path.exists(audit) or open(audit).read() != text:
             open(audit, 'w').write(text)
@@ -176,21 +188,21 @@ class Ctx:
         self.proof['discharged'] = ok
         if self.thorough:
             t = time.time()
-            rc, out = sh(['lake', 'env', 'leanchecker', 'Props.' + prop], cwd=LEAN, timeout=3000)
+            rc, out = sh(['lake', 'env', 'leanchecker'] + mods, cwd=LEAN, timeout=3000)
             self.proof['leanchecker'] = 'rc=%d %.0fs' % (rc, time.time() - t)
             self.proof['checker_cmd'] += ' && lake env leanchecker Props.%s' % prop
             if rc != 0:
                 self.proof_broken.append('leanchecker:' + out[-500:])
         return not self.proof_broken
 
-    def _failed_theorems(self, out, props_file, thms):
+    def _failed_theorems(self, out, props_file):
         failed = []
         lines = open(props_file).read().split('\n')
         starts = [(i + 1, m.group(1)) for i, l in enumerate(lines)
                   for m in [re.match(r'\s*theorem\s+([A-Za-z0-9_\.\']+)', l)] if m]
         for m in re.finditer(r'error: (\S+?\.lean):(\d+):(\d+)', out):
             f, ln = m.group(1), int(m.group(2))
-            if f.endswith('Props/%s.lean' % self.prop):
+            if f.endswith('Props/' + os.path.basename(props_file)):
                 name = None
                 for s, n in starts:
                     if s <= ln:
